@@ -218,18 +218,31 @@ def indexAppendN : Nat → Index → M (Ret × Index)
     let (r, i') ← indexAppend S i
     if r != OK then pure (r, i') else indexAppendN n i'
 
+/-- result of `lzma_index_cat`: on success the source has been consumed, on failure both are returned untouched -/
+inductive CatRes where
+  | ok (d : Index)
+  | fail (r : Ret) (d s : Index)
+
+def CatRes.ret : CatRes → Ret
+  | .ok _ => OK
+  | .fail r _ _ => r
+
+def CatRes.ids : CatRes → List Nat
+  | .ok d => d.ids
+  | .fail _ d s => d.ids ++ s.ids
+
 /-- `lzma_index_cat(dest, src)`: the allocation (shrinking dest's last group) happens before anything is
     modified; on success `src`'s base struct is freed and its Streams move to `dest`. -/
-def indexCat (d s : Index) : M (Ret × Index × Option Index) := do
+def indexCat (d s : Index) : M CatRes := do
   let shrink := d.lastG.isSome && d.lastUsed < d.lastAlloc
   let newg ← if shrink then alloc (some (S.indexGroup + d.lastUsed * S.indexRecord)) else pure d.lastG
   if shrink && newg.isNone then
-    pure (MEM_ERROR, d, some s)
+    pure (.fail MEM_ERROR d s)
   else do
     if shrink then free d.lastG
     free1 s.id
-    pure (OK, { id := d.id, lastG := s.lastG, lastAlloc := s.lastAlloc, lastUsed := s.lastUsed,
-                others := toL newg ++ d.others ++ s.others, recs := d.recs ++ s.recs, prealloc := d.prealloc }, none)
+    pure (.ok { id := d.id, lastG := s.lastG, lastAlloc := s.lastAlloc, lastUsed := s.lastUsed,
+                others := toL newg ++ d.others ++ s.others, recs := d.recs ++ s.recs, prealloc := d.prealloc })
 
 /-- the loop of `lzma_index_dup` over the Streams of the source; `acc` = blocks of the copy so far
     (`base` first allocated). Returns the blocks of the finished copy, or `none` after unwinding. -/
@@ -738,9 +751,9 @@ def fiCombine : NodeOp := fun n =>
   | .mk i self bufs data opts (some t) none s0 s1 =>
     pure (OK, .mk i self bufs data opts none (some t) s0 s1)
   | .mk i self bufs data opts (some t) (some c) s0 s1 => do
-    let r ← indexCat S t c
-    if r.1 == OK then pure (OK, .mk i self bufs data opts none (some r.2.1) s0 s1)
-    else pure (r.1, .mk i self bufs data opts (some r.2.1) r.2.2 s0 s1)
+    match ← indexCat S t c with
+    | .ok d => pure (OK, .mk i self bufs data opts none (some d) s0 s1)
+    | .fail e d c' => pure (e, .mk i self bufs data opts (some d) (some c') s0 s1)
   | n => pure (PROG_ERROR, n)
 
 /-- the file-info decoder over `nstreams` Streams (last Stream first) of `nblocks` Blocks each -/
@@ -771,16 +784,17 @@ def lzmaEnd (w : World) : M World :=
 
 /-- `lzma_next_strm_init(func, strm, ...)`: `lzma_strm_init` allocates `strm->internal` if needed; if the
     init function fails, `lzma_end(strm)` frees everything. -/
+def strmEnsure (w : World) : M (Option (Nat × Node)) :=
+  match w.strm with
+  | some s => pure (some s)
+  | none => do
+    match ← alloc (some S.internal) with
+    | none => pure none
+    | some i => pure (some (i, Node.null 0))
+
 def strmInit (op : NodeOp) (w : World) : M (Ret × World) := do
-  let cur ←
-    match w.strm with
-    | some s => pure (some s)
-    | none => do
-      match ← alloc (some S.internal) with
-      | none => pure none
-      | some i => pure (some (i, Node.null 0))
-  match cur with
-  | none => pure (MEM_ERROR, w)
+  match ← strmEnsure S w with
+  | none => pure (MEM_ERROR, { w with strm := none })      -- (strm->internal was NULL and stays NULL)
   | some (i, n) =>
     let r ← op n
     if r.1 != OK then do
@@ -844,7 +858,7 @@ def decodeOp (r : Recipe) : NodeOp := fun n =>
 def takeIndex (slot : Nat) (w : World) : World :=
   match w.strm with
   | some (i, .mk k self bufs data opts ix0 ix1 s0 s1) =>
-    if (getIx w.ix slot).isSome then w
+    if (getIx w.ix slot).isSome || slot ≥ w.ix.length then w
     else if k == I_IDEC then
       { strm := some (i, .mk k self bufs data opts none ix1 s0 s1), ix := setIx w.ix slot ix0 }
     else if k == I_FIDEC then
@@ -946,8 +960,9 @@ def runOp (w : World) : Op → M (Ret × World)
     if d == s then pure (PROG_ERROR, w) else
     match getIx w.ix d, getIx w.ix s with
     | some di, some si => do
-      let r ← indexCat S di si
-      pure (r.1, { w with ix := setIx (setIx w.ix d (some r.2.1)) s r.2.2 })
+      match ← indexCat S di si with
+      | .ok x => pure (OK, { w with ix := setIx (setIx w.ix d (some x)) s none })
+      | .fail e x y => pure (e, { w with ix := setIx (setIx w.ix d (some x)) s (some y) })
     | _, _ => pure (PROG_ERROR, w)
   | .ixDup d s =>
     if (getIx w.ix d).isSome || d ≥ w.ix.length then pure (PROG_ERROR, w) else
@@ -989,10 +1004,13 @@ def runOp (w : World) : Op → M (Ret × World)
     | none => pure (MEM_ERROR, w)
     | some tmp =>
       match parseErrAt with
-      | some _ => do
-        free (tmp.getLastD none)
-        freeOptsRev tmp.dropLast
-        pure (OPTIONS_ERROR, w)
+      | some _ =>
+        match tmp.reverse with
+        | [] => pure (OPTIONS_ERROR, w)
+        | last :: before => do
+          free last
+          freeOpts before
+          pure (OPTIONS_ERROR, w)
       | none =>
         if fails then do freeOptsRev tmp; pure (OPTIONS_ERROR, w)
         else do freeOpts tmp; pure (OK, w)
@@ -1029,11 +1047,11 @@ def runOps : List Op → World → M (List Ret × World)
 
 /-- release everything the caller still owns: `lzma_end` and `lzma_index_end` for every slot -/
 def cleanup (w : World) : M World := do
-  let w1 ← lzmaEnd w
+  let _ ← lzmaEnd w
   let rec go : List (Option Index) → M Unit
     | [] => pure ()
     | x :: t => do indexEnd x; go t
-  go w1.ix
-  pure { w1 with ix := w1.ix.map (fun _ => none) }
+  go w.ix
+  pure { strm := none, ix := w.ix.map (fun _ => none) }
 
 end XzVerif.Alloc
